@@ -7,7 +7,7 @@ def shard_unit(hfile, entries, tiers=None):
     u=meta_unit([],entries,pkg=SH,tiers=tiers)
     u['files']={hfile:SH[2:],"../common/zz_verif_metacommon.go":"pkg/local_object_storage/metabase","../common/zz_verif_bboltmodel.go":"mod:github.com/nspcc-dev/bbolt"}
     return u
-write("C01",[meta_unit(["zz_verif_C01.go"],[{"name":"VerifC01History","reach":["end"]}],tiers={"quick":{"params":{"K":2},"unwind":200},"thorough":{"params":{"K":3},"unwind":200}})],
+write("C01",[meta_unit(["zz_verif_C01.go"],[{"name":"VerifC01History","reach":["end"]}],tiers={"quick":{"params":{"K":3},"unwind":200},"thorough":{"params":{"K":4},"unwind":200}})],
  [],["histories longer than K operations on one object","search/EC-part views, split parents"])
 write("C02",[meta_unit(["zz_verif_C02.go"],[{"name":"VerifC02History","reach":["end"]},{"name":"VerifC02UpdateCounter","reach":["end"]}],
   tiers={"quick":{"unwind":200,"params":{"K":2}},"thorough":{"unwind":200,"params":{"K":3}}})],
